@@ -207,6 +207,13 @@ static const size_t BULK_SIZES[] = {40000, 140000, 400000};
 static bool bulk_input(const Bulk &b, size_t k, Syntax sy, Bytes &S) {
     asn_TYPE_descriptor_t *td = pdu_by_name(b.type);
     if(!td || !pdu_by_name(b.decode_as)) return false;
+    // UPER re-assembles the contents of an open type in a buffer of its own at EVERY nesting level (about 3.5 x depth x n on the pinned
+    // tree; the depth is bounded by the stack guard, so it is a - large - constant factor): observed, documented (DESIGN 15.5), not judged
+    if(sy == SY_UPER && strstr(b.name, "deep-payload")) return false;
+    if(!b.xer) {                       // hand-written bytes for one syntax
+        if(!b.raw || (b.raw_syntax == 1 && sy != SY_DER)) return false;       // the grid's "DER" column carries the BER-only inputs
+        S = b.raw(k); return true;
+    }
     std::string x = b.xer(k);
     void *st = nullptr;
     DecResult r = decode_call(td, SY_XER, &st, (const uint8_t *)x.data(), x.size());
@@ -224,7 +231,8 @@ static Verdict do_bulk(const Bulk &b, size_t k, Syntax sy, size_t chunk, HeapOut
     std::vector<Op> ops;
     if(chunk && sy != SY_UPER) for(size_t left = S.size(); left > chunk; left -= chunk) ops.push_back(mkop("deliver", {L((long)chunk)}));
     ops.push_back(mkop("deliver", {"rest"}));
-    v = do_heap(pdu_by_name(b.decode_as), sy, S, ops, enforce, ho, HEAP_A_BULK, HEAP_B);
+    // segmented strings: the pinned tree holds at most 0.65 bytes per input byte there, so 8 (instead of 24) is already > 4x the measurement
+    v = do_heap(pdu_by_name(b.decode_as), sy, S, ops, enforce, ho, b.heap_a ? b.heap_a : HEAP_A_BULK, HEAP_B);
     if(v.violated && v.cls == "heap-bomb") v.site = std::string("bulk:") + b.name + "/" + syntax_name(sy);
     return v;
 }
